@@ -7,12 +7,15 @@ for d in sorted(glob.glob('/verif/seeded/*/meta.json')):
     rows.append((m['id'], m['property_broken'], ", ".join(m['caught_by']) or "-", ", ".join(m['missed_by']) or "-",
                  m['needs_to_manifest']))
 txt = "\n## 10. Which checks catch which seeded changes\n\n"
-txt += ("%d changes were written by independent sub-agents in five rounds, each agent given only the text of one\n"
+txt += ("%d changes were written by independent sub-agents in seven rounds, each agent given only the text of one\n"
         "property and a scratch worktree of /repo (nothing from /verif), and asked for a change that compiles, passes the\n"
         "289 pinned tests and needs something specific to manifest (the third round was told to avoid name collisions and\n"
         "missing copies, and to look for early-stopping fixpoints, incrementally updated caches, asymmetric operands,\n"
         "boundary cases and helpers shared by two callers; the fifth to look at subclass overrides, operator forms,\n"
-        "constructor-argument paths, values of different types and falsy values). Each was confirmed here in a scratch worktree of /repo HEAD\n"
+        "constructor-argument paths, values of different types and falsy values; the sixth the same for the other half of the\n"
+        "properties; the seventh at early-return fast paths, mutator methods, argument forms -- list / set / tuple / one-shot\n"
+        "iterator --, `is` versus `==`, `x or default` on falsy values, lazily bound loop variables, drifting symmetrical\n"
+        "code paths). Each was confirmed here in a scratch worktree of /repo HEAD\n"
         "(`tools/seedcheck.sh`: the suite passes with the change, the demonstration fails with it and passes without it)\n"
         "and is kept under `/verif/seeded/<id>/` (`patch.diff`, `demo.py`, `notes.md`, `meta.json` with what was run).\n"
         "One patch (C03-memoised-eclosure-cycles) was rebased by hand onto the tree after fix 7844e2c. To run a check\n"
@@ -57,6 +60,17 @@ re-verified on the unchanged tree over several `VERIF_SEED` values):
   mutually incomparable types; EBNF lines may have an empty right-hand side. One round-5 change (`to_fst` walking the
   declared sets instead of the transition function) stopped being a defect once fix FX-34 made the constructor register
   the transition function's content, and is not kept.
+* Rounds 6 and 7: terminals that print alike (`1`, `"1"`, `"1 1"`) in the C12 / C08 grammars
+  (C12-r6-get-words-dedup-by-text); states that print alike (`1` and `"1"`) in the automaton workload
+  (C06-r6-elimination-keyed-by-printed-name); C15's R-TREE validation of the LL(1) tree of the empty word is what catches
+  C14-r6-empty-word-bare-root (C14 itself only checks accept / refuse, as its property states); words are handed to
+  `accepts()` as lists, tuples or one-shot iterators (C01-r7-precheck-consumes-one-shot-word); PDAs are also declared
+  with epsilon listed in the constructor's input alphabet, by name or as an object, as the repository's own tests do
+  (C11-r7-epsilon-identity-test); a start mark that is set and removed again (`remove_start_state`) and bulk
+  `add_transitions` joined the build variations. One round-6 change (isomorphism sort key by type name) no longer applies
+  after fix FX-37 rewrote that function, and is not kept. Looking at what these two rounds varied also exposed two more
+  defects of the pinned library itself (FX-37: `is_equivalent_to` sorted symbols of incomparable types; FX-38:
+  `substitute` with non-string variable values).
 * FX-26 (stale converter index, re-introduced by `./selftest regressions`): scenario template `reintersect` with a
   four-state DFA whose state set re-hashes when a fifth state is added.
 
